@@ -128,12 +128,17 @@ type vfC02MuxRun struct {
 	stack string
 	a, b  *vfC02SecPeer
 	mu    sync.Mutex
-	log   []any
+
+	abandoned atomic.Bool
+	log       []any
 }
 
 func (r *vfC02MuxRun) note(m map[string]any) { r.mu.Lock(); r.log = append(r.log, m); r.mu.Unlock() }
 
 func (r *vfC02MuxRun) mismatch(step int, class, what string, exp, got any) {
+	if r.abandoned.Load() && class != "mux-stall" {
+		return // the watchdog tore the sessions down: what the walk sees from then on is the harness's doing
+	}
 	r.mu.Lock()
 	pre := append([]any(nil), r.log...)
 	r.mu.Unlock()
@@ -185,6 +190,7 @@ func (r *vfC02MuxRun) run(watchdog time.Duration) (stalled bool) {
 	case <-done:
 	case <-time.After(watchdog):
 		stalled = true
+		r.abandoned.Store(true)
 	}
 	cmu.Lock()
 	for _, f := range closers {
